@@ -1,62 +1,703 @@
-//! temporary probe
-use domain::base::name::{NameBuilder, RelativeName};
-use octseq::array::Array;
+//! C03 -- every domain-name value is valid; limits are enforced at
+//! construction.  Correspondence cases for the Coq model (builder sequences,
+//! text parsing, validators) and the implementation-side property oracle
+//! (independent validator on every produced name, builder usable after every
+//! error, display->parse and compose->parse round trips).
+use domain::base::name::{Name, NameBuilder, PushError, PushNameError, RelativeName};
 use dv_harness::*;
+use octseq::array::Array;
+use octseq::builder::{EmptyBuilder, FreezeBuilder, OctetsBuilder};
+use std::str::FromStr;
+
+// ------------------------------------------------------------------ validator
+/// Independent validator: relative name = labels of 1..63 octets, no root
+/// label, at most 254 octets.
+fn check_rel(b: &[u8]) -> Result<(), &'static str> {
+    let mut i = 0usize;
+    while i < b.len() {
+        let l = b[i] as usize;
+        if l == 0 { return Err("root_label_in_relative_name"); }
+        if l > 63 { return Err("label_longer_than_63"); }
+        if i + 1 + l > b.len() { return Err("label_runs_past_end"); }
+        i += 1 + l;
+    }
+    if b.len() > 254 { return Err("relative_name_longer_than_254"); }
+    Ok(())
+}
+/// absolute name = relative part + exactly one root label, at most 255 octets
+fn check_abs(b: &[u8]) -> Result<(), &'static str> {
+    if b.is_empty() { return Err("empty_absolute_name"); }
+    if b[b.len() - 1] != 0 { return Err("no_root_label"); }
+    if b.len() > 255 { return Err("absolute_name_longer_than_255"); }
+    match check_rel(&b[..b.len() - 1]) {
+        Err("relative_name_longer_than_254") => Err("absolute_name_longer_than_255"),
+        r => r,
+    }
+}
+
+/// Known-finding classes: the first few occurrences are reported as oracle
+/// failures (the check matches them by class), the rest are only counted so
+/// that they cannot crowd other classes out of oracle.txt.
+fn known_hit(out: &mut Out, class: &str, case: &str, detail: &str) {
+    let k = format!("known:{}", class);
+    let seen = out.dist.get(&k).copied().unwrap_or(0);
+    out.count(&k);
+    if seen < 5 { out.check(false, class, case, detail); }
+}
+
+// ------------------------------------------------------------------ builder sequences
+#[derive(Clone, Debug)]
+enum Op { Push(u8), Slice(Vec<u8>), End, Label(Vec<u8>), Dec(u8), Hex(u8), Name(Vec<u8>) }
+#[derive(Clone, Debug)]
+enum Fin { Finish, IntoName, Origin(Vec<u8>), Nothing }
+
+impl Op {
+    fn word(&self) -> String {
+        match self {
+            Op::Push(c) => format!("p:{:02x}", c),
+            Op::Slice(s) => format!("s:{}", hex(s)),
+            Op::End => "e".into(),
+            Op::Label(s) => format!("l:{}", hex(s)),
+            Op::Dec(v) => format!("d:{}", v),
+            Op::Hex(v) => format!("h:{}", v),
+            Op::Name(w) => format!("n:{}", hex(w)),
+        }
+    }
+    fn atomic(&self) -> bool { !matches!(self, Op::Dec(_) | Op::Hex(_)) }
+}
+impl Fin {
+    fn word(&self) -> String {
+        match self { Fin::Finish => "F".into(), Fin::IntoName => "I".into(), Fin::Origin(w) => format!("O:{}", hex(w)), Fin::Nothing => "X".into() }
+    }
+}
+
+fn pe(e: PushError) -> &'static str {
+    match e { PushError::LongLabel => "LongLabel", PushError::LongName => "LongName", PushError::ShortBuf => "ShortBuf" }
+}
+fn pne(e: PushNameError) -> &'static str {
+    match e { PushNameError::LongName => "LongName", PushNameError::ShortBuf => "ShortBuf" }
+}
+
+trait Bld: OctetsBuilder + AsRef<[u8]> + AsMut<[u8]> + EmptyBuilder + FreezeBuilder + Clone {}
+impl<T: OctetsBuilder + AsRef<[u8]> + AsMut<[u8]> + EmptyBuilder + FreezeBuilder + Clone> Bld for T {}
+
+fn apply<B: Bld>(b: &mut NameBuilder<B>, op: &Op) -> &'static str {
+    match op {
+        Op::Push(c) => b.push(*c).map_or_else(pe, |_| "Ok"),
+        Op::Slice(s) => b.append_slice(s).map_or_else(pe, |_| "Ok"),
+        Op::End => { b.end_label(); "Ok" }
+        Op::Label(s) => b.append_label(s).map_or_else(pe, |_| "Ok"),
+        Op::Dec(v) => b.append_dec_u8_label(*v).map_or_else(pe, |_| "Ok"),
+        Op::Hex(v) => b.append_hex_digit_label(*v).map_or_else(pe, |_| "Ok"),
+        Op::Name(w) => {
+            let n = RelativeName::from_slice(w).expect("generator made an invalid relative name");
+            b.append_name(&n).map_or_else(pne, |_| "Ok")
+        }
+    }
+}
+
+fn closed_view<B: Bld>(b: &NameBuilder<B>) -> Result<Vec<u8>, String>
+where B::Octets: AsRef<[u8]> {
+    let c = b.clone();
+    catch_mut(move || c.finish().as_slice().to_vec())
+}
+
+/// Run one sequence on the implementation; returns the T2 observation.
+/// `oracle` switches the property checks on.
+fn run_seq<B: Bld>(out: &mut Out, case: &str, ops: &[Op], fin: &Fin, oracle: bool) -> String
+where B::Octets: AsRef<[u8]> {
+    let mut b = NameBuilder::<B>::new();
+    let mut words: Vec<&'static str> = vec![];
+    let mut tainted = false;     // a known-class state has been reached
+    let mut shortbuf_seen = false;
+    let mut panicked = false;
+    for op in ops {
+        let before = b.clone();
+        let (pre_len, pre_inl) = (b.len(), b.in_label());
+        let r = catch_mut(|| apply(&mut b, op));
+        let w = match r { Ok(w) => w, Err(_) => "Panic" };
+        words.push(w);
+        if w == "Panic" {
+            panicked = true;
+            if oracle && !tainted {
+                let class = if shortbuf_seen { "shortbuf_corrupts_builder" }
+                    else if matches!(op, Op::Slice(_)) && pre_inl { "append_slice_full_label_panic" }
+                    else { "builder_panic" };
+                out.check(false, class, case, &format!("{} panicked at len {} in_label {}", op.word(), pre_len, pre_inl));
+            }
+            break;
+        }
+        if w == "ShortBuf" { shortbuf_seen = true; }
+        if !oracle || tainted { continue; }
+        // (1) whatever happened, the builder denotes a valid relative name
+        let now = closed_view(&b);
+        let n = match op { Op::Slice(s) if !pre_inl => s.len(), Op::Label(s) => s.len(), _ => 0 };
+        let known_gap = w == "Ok" && (1..=63).contains(&n) && pre_len + n == 254
+            && matches!(op, Op::Slice(_) | Op::Label(_));
+        match &now {
+            Err(e) => out.check(false, if shortbuf_seen { "shortbuf_corrupts_builder" } else { "builder_panic" }, case, &format!("finish after {} panicked: {}", op.word(), e)),
+            Ok(v) => match check_rel(v) {
+                Ok(()) => {
+                    out.check(true, "invalid_relative_name", case, "");
+                    out.check(!known_gap, "oracle_self_check", case, "known-gap step gave a valid name");
+                }
+                Err(why) => {
+                    if known_gap && why == "relative_name_longer_than_254" && v.len() == 255 {
+                        known_hit(out, "relname_255_new_label", case, &format!("{} at len {} gives a 255 octet relative name", op.word(), pre_len));
+                        tainted = true;
+                    } else {
+                        let class = if shortbuf_seen { "shortbuf_corrupts_builder" } else { "invalid_relative_name" };
+                        out.check(false, class, case, &format!("after {}: {} ({})", op.word(), why, hex(v)));
+                    }
+                }
+            },
+        }
+        if tainted { continue; }
+        // (2) an error leaves the builder usable: same length, same open/closed
+        // status, same name when finished, same answer to a following push
+        if w != "Ok" && op.atomic() {
+            let class = if w == "ShortBuf" { "shortbuf_corrupts_builder" } else { "error_changed_builder" };
+            let same = b.len() == pre_len && b.in_label() == pre_inl && closed_view(&before).ok() == now.clone().ok();
+            out.check(same, class, case, &format!("{} -> {}: len {}->{} in_label {}->{}", op.word(), w, pre_len, b.len(), pre_inl, b.in_label()));
+            let (mut x, mut y) = (before.clone(), b.clone());
+            let rx = catch_mut(|| { let r = x.push(b'z').map_err(pe); (r, x.as_slice().len()) });
+            let ry = catch_mut(|| { let r = y.push(b'z').map_err(pe); (r, y.as_slice().len()) });
+            out.check(rx == ry && rx.is_ok(), class, case, &format!("push after failed {} differs: {:?} vs {:?}", op.word(), rx, ry));
+        }
+    }
+    let inl = if b.in_label() { 1 } else { 0 };
+    let slice = hex(b.as_slice());
+    let finw = if panicked { "-".to_string() } else {
+        let rel_before = closed_view(&b).unwrap_or_default();
+        match fin {
+            Fin::Nothing => "-".to_string(),
+            Fin::Finish => match catch_mut(move || b.finish().as_slice().to_vec()) {
+                Err(_) => { if oracle && !tainted { out.check(false, "builder_panic", case, "finish panicked"); } "Panic".into() }
+                Ok(v) => {
+                    if oracle && !tainted { oracle_rel(out, case, &v, shortbuf_seen); }
+                    format!("Ok:{}", hex(&v))
+                }
+            },
+            Fin::IntoName => match catch_mut(move || b.into_name().map(|n| n.as_slice().to_vec())) {
+                Err(_) => { if oracle && !tainted { out.check(false, "builder_panic", case, "into_name panicked"); } "Panic".into() }
+                Ok(Err(e)) => pe(e).into(),
+                Ok(Ok(v)) => {
+                    if oracle && !tainted {
+                        oracle_abs(out, case, &v, shortbuf_seen);
+                        let mut want = rel_before.clone(); want.push(0);
+                        out.check(v == want, "into_name_octets", case, &hex(&v));
+                    }
+                    format!("Ok:{}", hex(&v))
+                }
+            },
+            Fin::Origin(w) => {
+                let origin = Name::from_slice(w).expect("generator made an invalid origin");
+                match catch_mut(move || b.append_origin(&origin).map(|n| n.as_slice().to_vec())) {
+                    Err(_) => { if oracle && !tainted { out.check(false, "builder_panic", case, "append_origin panicked"); } "Panic".into() }
+                    Ok(Err(e)) => pne(e).into(),
+                    Ok(Ok(v)) => {
+                        if oracle && !tainted {
+                            oracle_abs(out, case, &v, shortbuf_seen);
+                            let mut want = rel_before.clone(); want.extend_from_slice(w);
+                            out.check(v == want, "append_origin_octets", case, &hex(&v));
+                        }
+                        format!("Ok:{}", hex(&v))
+                    }
+                }
+            }
+        }
+    };
+    format!("{} {} {} {}", if words.is_empty() { "-".to_string() } else { words.join(",") }, inl, slice, finw)
+}
+
+/// A RelativeName value came out of the API: validate, wire round trip.
+fn oracle_rel(out: &mut Out, case: &str, v: &[u8], shortbuf_seen: bool) {
+    let ok = check_rel(v);
+    out.check(ok.is_ok(), if shortbuf_seen { "shortbuf_corrupts_builder" } else { "invalid_relative_name" }, case, &format!("{:?} {}", ok, hex(v)));
+    if ok.is_ok() {
+        let back = RelativeName::from_octets(v.to_vec());
+        out.check(back.as_ref().map(|n| n.as_slice() == v).unwrap_or(false), "wire_roundtrip_relative", case, &hex(v));
+    }
+}
+
+/// A Name value came out of the API: validate, wire and text round trips.
+fn oracle_abs(out: &mut Out, case: &str, v: &[u8], shortbuf_seen: bool) {
+    let ok = check_abs(v);
+    out.check(ok.is_ok(), if shortbuf_seen { "shortbuf_corrupts_builder" } else { "invalid_absolute_name" }, case, &format!("{:?} {}", ok, hex(v)));
+    if ok.is_ok() {
+        let back = Name::from_octets(v.to_vec());
+        out.check(back.as_ref().map(|n| n.as_slice() == v).unwrap_or(false), "wire_roundtrip", case, &hex(v));
+        if let Ok(n) = back {
+            let text = format!("{}", n);
+            let again = Name::<Vec<u8>>::from_str(&text);
+            out.check(again.as_ref().map(|m| m.as_slice() == v).unwrap_or(false), "display_parse_roundtrip", case,
+                &format!("{} displayed as {:?} parses to {:?}", hex(v), text, again.map(|m| hex(m.as_slice()))));
+        }
+    }
+}
+
+
+// ------------------------------------------------------------------ wire validators
+fn err_word(dbg: &str) -> String {
+    // "NameError(BadLabel(Undefined))" -> "BadLabel"
+    let inner = dbg.splitn(2, '(').nth(1).unwrap_or(dbg);
+    inner.split(|c| c == '(' || c == ')').next().unwrap_or("").to_string()
+}
+
+fn gen_octets(r: &mut Rng) -> Vec<u8> {
+    let base_len = match r.below(6) { 0 => r.range(250, 257) as usize, 1 => r.range(0, 6) as usize, _ => r.range(2, 120) as usize };
+    let total = if base_len == 1 { 2 } else { base_len };
+    let mut w = rel_wire(r, total.min(254));
+    if r.chance(3, 4) { w.push(0); }
+    match r.below(12) {
+        0 => { let i = r.below(w.len().max(1) as u64) as usize; if i < w.len() { w[i] = *r.pick(&[0u8, 0x3f, 0x40, 0x7f, 0x80, 0xbf, 0xc0, 0xff, 64, 65]); } }
+        1 => { let k = r.range(1, 3) as usize; w.extend(r.bytes(k)); }
+        2 => { let n = r.below(w.len().max(1) as u64) as usize; w.truncate(n); }
+        3 => { let k = r.range(0, 12) as usize; w = r.bytes(k); }
+        4 => { w.push(0); }
+        5 => { let l = r.range(62, 66) as usize; let mut v = vec![l as u8]; v.extend(label_bytes(r, l)); v.extend(w); w = v; }
+        _ => {}
+    }
+    w
+}
+
+fn wire_case(out: &mut Out, w: &[u8]) {
+    let c = format!("abs {}", hex(w));
+    out.begin(&c);
+    let r = Name::from_octets(w.to_vec());
+    let obs = match &r { Ok(_) => "Ok".to_string(), Err(e) => err_word(&format!("{:?}", e)) };
+    out.case(&c, &obs, w.len() > 1, "from_octets_abs");
+    let mine = check_abs(w);
+    out.check(r.is_ok() == mine.is_ok(), "name_check_slice_wrong", &c, &format!("from_octets {:?}, validator {:?}", obs, mine));
+    if let Ok(n) = &r {
+        oracle_abs(out, &c, n.as_slice(), false);
+        out.check(Name::from_slice(w).is_ok(), "from_slice_differs", &c, "");
+        slicing_oracle(out, &c, n);
+    }
+    let c = format!("rel {}", hex(w));
+    let r = RelativeName::from_octets(w.to_vec());
+    let obs = match &r { Ok(_) => "Ok".to_string(), Err(e) => err_word(&format!("{:?}", e)) };
+    out.case(&c, &obs, w.len() > 1, "from_octets_rel");
+    let mine = check_rel(w);
+    out.check(r.is_ok() == mine.is_ok(), "relname_check_slice_wrong", &c, &format!("from_octets {:?}, validator {:?}", obs, mine));
+    if let Ok(n) = r {
+        oracle_rel(out, &c, n.as_slice(), false);
+        // NameBuilder::from_builder accepts the same octets and continues from them
+        let b = NameBuilder::from_builder(w.to_vec());
+        out.check(b.is_ok(), "from_builder_differs", &c, "");
+        // into_absolute appends the root label
+        let abs = n.clone().into_absolute();
+        match abs {
+            Ok(a) => { oracle_abs(out, &c, a.as_slice(), false);
+                       let back = a.into_relative(); out.check(back.as_slice() == w, "into_relative_octets", &c, &hex(back.as_slice())); }
+            Err(e) => out.check(false, "into_absolute_failed", &c, pe(e)),
+        }
+    }
+}
+
+/// split / truncate / range / slice / parent / strip_suffix at every label start
+fn slicing_oracle(out: &mut Out, c: &str, n: &Name<Vec<u8>>) {
+    let w = n.as_slice().to_vec();
+    for i in 0..w.len() {
+        if !n.is_label_start(i) { continue; }
+        let r = catch(std::panic::AssertUnwindSafe(|| {
+            let (l, rgt) = n.split(i);
+            let t = n.clone().truncate(i);
+            let rg = n.range(..i);
+            let sl = n.slice(..i).as_slice().to_vec();
+            let sf = n.slice_from(i).as_slice().to_vec();
+            let rf = n.range_from(i);
+            (l.as_slice().to_vec(), rgt.as_slice().to_vec(), t.as_slice().to_vec(), rg.as_slice().to_vec(), sl, sf, rf.as_slice().to_vec())
+        }));
+        match r {
+            Err(e) => out.check(false, "slicing_panic", c, &format!("index {}: {}", i, e)),
+            Ok((l, rgt, t, rg, sl, sf, rf)) => {
+                out.check(check_rel(&l).is_ok() && l == w[..i], "split_left_invalid", c, &hex(&l));
+                out.check(check_abs(&rgt).is_ok() && rgt == w[i..], "split_right_invalid", c, &hex(&rgt));
+                out.check(t == l && rg == l && sl == l, "truncate_range_differs", c, &format!("index {}", i));
+                out.check(sf == rgt && rf == rgt, "slice_from_differs", c, &format!("index {}", i));
+                // strip_suffix with the right part gives back the left part
+                let base = Name::from_octets(rgt.clone()).unwrap();
+                match n.clone().strip_suffix(&base) {
+                    Ok(rel) => out.check(rel.as_slice() == &l[..], "strip_suffix_octets", c, &hex(rel.as_slice())),
+                    Err(_) => out.check(false, "strip_suffix_refused", c, &format!("index {}", i)),
+                }
+            }
+        }
+    }
+    match n.parent() {
+        None => out.check(w.len() == 1, "parent_none", c, ""),
+        Some(p) => out.check(check_abs(p.as_slice()).is_ok() && p.as_slice() == &w[1 + w[0] as usize..], "parent_invalid", c, &hex(p.as_slice())),
+    }
+    // an index that is not a label start must be refused (panic), never yield a name
+    if w.len() > 2 {
+        let i = 1usize; // inside the first label (its content), never a label start
+        let r = catch(std::panic::AssertUnwindSafe(|| n.split(i).0.as_slice().to_vec()));
+        out.check(r.is_err(), "split_inside_label_accepted", c, "");
+    }
+}
+
+// ------------------------------------------------------------------ text
+fn last_word(dbg: &str) -> String {
+    let mut cur = String::new(); let mut last = String::new();
+    for ch in dbg.chars() { if ch.is_ascii_alphanumeric() { cur.push(ch); } else { if !cur.is_empty() { last = cur.clone(); cur.clear(); } } }
+    if !cur.is_empty() { last = cur; }
+    last
+}
+fn chars_word(s: &str) -> String {
+    if s.is_empty() { "-".into() } else { s.chars().map(|c| format!("{:x}", c as u32)).collect::<Vec<_>>().join(",") }
+}
+fn gen_text(r: &mut Rng) -> String {
+    const ALPHA: [&str; 24] = ["\\", "\\", "\\", ".", ".", ".", "0", "1", "2", "5", "9", " ", "\"", ";", "(", ")", "[", "a", "b", "z", "é", "\u{0}", "\u{7f}", "\u{1F600}"];
+    let mut s = String::new();
+    let style = r.below(6);
+    let n = match style { 0 => r.range(0, 4), 1 => r.range(240, 270), _ => r.range(1, 30) };
+    for i in 0..n {
+        if style == 1 {
+            // long names: labels of steered length
+            if i > 0 && i % r.range(2, 64) == 0 { s.push('.'); } else { s.push((b'a' + r.below(26) as u8) as char); }
+        } else if style == 2 && r.chance(1, 3) {
+            s.push_str(&format!("\\{:03}", r.below(300)));
+        } else {
+            s.push_str(*r.pick(&ALPHA[..]));
+        }
+    }
+    if r.chance(1, 4) { s.push('.'); }
+    s
+}
+fn text_case(out: &mut Out, s: &str) {
+    use domain::base::name::UncertainName;
+    let c = format!("txt {}", chars_word(s));
+    out.begin(&c);
+    let a = catch(|| Name::<Vec<u8>>::from_chars(s.chars()));
+    let rl = catch(|| RelativeName::<Vec<u8>>::from_chars(s.chars()));
+    let u = catch(|| UncertainName::<Vec<u8>>::from_chars(s.chars()));
+    let wa = match &a { Err(_) => "Panic".into(), Ok(Ok(n)) => format!("Ok:{}", hex(n.as_slice())), Ok(Err(e)) => last_word(&format!("{:?}", e)) };
+    let wr = match &rl { Err(_) => "Panic".into(), Ok(Ok(n)) => format!("Ok:{}", hex(n.as_slice())), Ok(Err(e)) => last_word(&format!("{:?}", e)) };
+    let wu = match &u { Err(_) => "Panic".into(),
+        Ok(Ok(UncertainName::Absolute(n))) => format!("Ok:A:{}", hex(n.as_slice())),
+        Ok(Ok(UncertainName::Relative(n))) => format!("Ok:R:{}", hex(n.as_slice())),
+        Ok(Err(e)) => last_word(&format!("{:?}", e)) };
+    out.case(&c, &format!("abs={} rel={} unc={}", wa, wr, wu), s.len() > 1, "from_chars");
+    out.check(a.is_ok() && rl.is_ok() && u.is_ok(), "from_chars_panic", &c, "");
+    if let Ok(Ok(n)) = &a { oracle_abs(out, &c, n.as_slice(), false); }
+    if let Ok(Ok(n)) = &rl { oracle_rel(out, &c, n.as_slice(), false); }
+    match &u {
+        Ok(Ok(UncertainName::Absolute(n))) => oracle_abs(out, &c, n.as_slice(), false),
+        Ok(Ok(UncertainName::Relative(n))) => oracle_rel(out, &c, n.as_slice(), false),
+        _ => {}
+    }
+}
+fn display_case(out: &mut Out, w: &[u8]) {
+    let n = Name::from_octets(w.to_vec()).unwrap();
+    let c = format!("disp {}", hex(w));
+    let text = format!("{}", n);
+    out.case(&c, &chars_word(&text), w.len() > 1, "display");
+}
+
+// ------------------------------------------------------------------ chain
+fn chain_case(out: &mut Out, r: &mut Rng) {
+    let ll = match r.below(4) { 0 => r.range(0, 20) as usize, _ => r.range(236, 254) as usize };
+    let ll = if ll == 1 { 2 } else { ll };
+    let left = RelativeName::from_octets(rel_wire(r, ll)).unwrap();
+    let room = 255usize.saturating_sub(ll);
+    let rl = (room as i64 + r.range(0, 6) as i64 - 3).max(0) as usize;
+    let right_abs = r.chance(1, 2);
+    let rl = if right_abs { rl.max(1) } else { rl };
+    let rel_part = if right_abs { rl - 1 } else { rl };
+    let rel_part = if rel_part == 1 { 2 } else { rel_part.min(254) };
+    let mut rw = rel_wire(r, rel_part);
+    if right_abs { rw.push(0); }
+    let c = format!("chain {} {}", ll, rw.len());
+    out.begin(&c);
+    let case_full = format!("{} left={} right={}", c, hex(left.as_slice()), hex(&rw));
+    if right_abs {
+        let right = Name::from_octets(rw.clone()).unwrap();
+        match left.clone().chain(right) {
+            Err(_) => { out.case(&c, "LongChain", true, "chain"); out.check(ll + rw.len() > 255, "chain_refused_fitting", &case_full, ""); }
+            Ok(ch) => {
+                out.case(&c, "Ok", true, "chain");
+                use domain::base::name::ToName;
+                let v = ch.to_vec();
+                oracle_abs(out, &case_full, v.as_slice(), false);
+            }
+        }
+    } else {
+        let right = RelativeName::from_octets(rw.clone()).unwrap();
+        match left.clone().chain(right) {
+            Err(_) => { out.case(&c, "LongChain", true, "chain"); out.check(ll + rw.len() > 254, "chain_refused_fitting", &case_full, ""); }
+            Ok(ch) => {
+                out.case(&c, "Ok", true, "chain");
+                use domain::base::name::ToRelativeName;
+                let v = ch.to_vec();
+                let ok = check_rel(v.as_slice());
+                if ok.is_err() && ll + rw.len() == 255 && v.as_slice().len() == 255 {
+                    known_hit(out, "chain_relative_255", &case_full, "relative + relative chain of 255 octets accepted");
+                } else {
+                    oracle_rel(out, &case_full, v.as_slice(), false);
+                }
+            }
+        }
+    }
+}
+
+const CAPS: [usize; 8] = [4, 7, 12, 64, 200, 254, 255, 256];
+
+fn run_case(out: &mut Out, cap: Option<usize>, ops: &[Op], fin: &Fin, oracle: bool, t2: bool, kind: &str) {
+    let mut case = String::from("seq ");
+    case.push_str(&cap.map_or("-".to_string(), |c| c.to_string()));
+    for o in ops { case.push(' '); case.push_str(&o.word()); }
+    case.push(' '); case.push_str(&fin.word());
+    out.begin(&case);
+    let obs = match cap {
+        None => run_seq::<Vec<u8>>(out, &case, ops, fin, oracle),
+        Some(4) => run_seq::<Array<4>>(out, &case, ops, fin, oracle),
+        Some(7) => run_seq::<Array<7>>(out, &case, ops, fin, oracle),
+        Some(12) => run_seq::<Array<12>>(out, &case, ops, fin, oracle),
+        Some(64) => run_seq::<Array<64>>(out, &case, ops, fin, oracle),
+        Some(200) => run_seq::<Array<200>>(out, &case, ops, fin, oracle),
+        Some(254) => run_seq::<Array<254>>(out, &case, ops, fin, oracle),
+        Some(255) => run_seq::<Array<255>>(out, &case, ops, fin, oracle),
+        Some(256) => run_seq::<Array<256>>(out, &case, ops, fin, oracle),
+        Some(c) => panic!("capacity {} not instantiated", c),
+    };
+    let nontrivial = obs.contains("Long") || obs.contains("ShortBuf") || ops.len() >= 3;
+    if t2 { out.case(&case, &obs, nontrivial, kind); } else { out.oracle_case(&case, nontrivial, kind); }
+}
+
+// ------------------------------------------------------------------ generators
+fn label_bytes(r: &mut Rng, n: usize) -> Vec<u8> {
+    (0..n).map(|_| match r.below(8) { 0 => r.u8(), 1 => b'.', 2 => 0, _ => b'a' + (r.below(26) as u8) }).collect()
+}
+fn boundary_len(r: &mut Rng) -> usize {
+    match r.below(10) { 0..=3 => r.range(61, 65) as usize, 4 => 0, 5 => 1, 6 => r.range(2, 12) as usize, 7 => r.range(66, 80) as usize, _ => r.range(1, 63) as usize }
+}
+/// wire form of a valid relative name of exactly `total` octets (total = 0 or >= 2)
+fn rel_wire(r: &mut Rng, total: usize) -> Vec<u8> {
+    let mut w = vec![];
+    let mut rem = total;
+    while rem > 0 {
+        let mut l = if rem <= 64 { rem - 1 } else { std::cmp::min(63, r.range(1, 63) as usize) };
+        if rem - (l + 1) == 1 { l -= 1; }
+        if l == 0 { l = 1; }
+        w.push(l as u8); w.extend(label_bytes(r, l));
+        rem -= l + 1;
+    }
+    w
+}
+fn fill_ops(r: &mut Rng, total: usize) -> Vec<Op> {
+    // closed labels adding up to `total` octets (0 or >= 2)
+    let w = rel_wire(r, total);
+    let mut ops = vec![]; let mut i = 0;
+    while i < w.len() { let l = w[i] as usize; ops.push(Op::Label(w[i + 1..i + 1 + l].to_vec())); i += 1 + l; }
+    ops
+}
+fn random_op(r: &mut Rng, near: Option<usize>) -> Op {
+    // `near`: octets left until 254, to steer argument lengths to the limit
+    let len_arg = |r: &mut Rng| -> usize {
+        match (near, r.below(3)) {
+            (Some(left), 0) => (left as i64 + r.range(0, 4) as i64 - 2).max(0) as usize,
+            _ => boundary_len(r),
+        }
+    };
+    match r.below(20) {
+        0..=4 => Op::Push(if r.chance(1, 4) { r.u8() } else { b'a' + r.below(26) as u8 }),
+        5..=9 => { let n = len_arg(r); Op::Slice(label_bytes(r, n)) }
+        10..=11 => Op::End,
+        12..=15 => { let n = len_arg(r); Op::Label(label_bytes(r, n)) }
+        16 => Op::Dec(*r.pick(&[0u8, 7, 9, 10, 42, 99, 100, 199, 255])),
+        17 => Op::Hex(r.u8()),
+        _ => { let mut n = len_arg(r).min(254); if n == 1 { n = 2; } Op::Name(rel_wire(r, n)) }
+    }
+}
+fn random_fin(r: &mut Rng, near: Option<usize>) -> Fin {
+    match r.below(4) {
+        0 => Fin::Finish,
+        1 => Fin::IntoName,
+        2 => {
+            let mut n = match (near, r.below(2)) { (Some(left), 0) => (left as i64 + r.range(0, 4) as i64 - 2).max(0) as usize, _ => r.range(0, 70) as usize };
+            n = n.min(254); if n == 1 { n = 2; }
+            let mut w = rel_wire(r, n); w.push(0); Fin::Origin(w)
+        }
+        _ => Fin::Nothing,
+    }
+}
+
+fn gen_sequences(out: &mut Out, r: &mut Rng, count: u64, idx: &mut u64) {
+    for _ in 0..count {
+        *idx += 1;
+        let style = r.below(10);
+        let (cap, ops, fin) = if style < 5 {
+            // steered to the name limit
+            let target = r.range(236, 253) as usize;
+            let mut ops = fill_ops(r, target);
+            let mut approx = target;
+            for _ in 0..r.range(1, 7) {
+                let left = 254usize.saturating_sub(approx);
+                let o = random_op(r, Some(left));
+                approx += match &o { Op::Push(_) => 1, Op::Slice(s) | Op::Label(s) if s.len() <= 63 && approx + s.len() <= 254 => s.len() + 1, _ => 0 };
+                ops.push(o);
+            }
+            let fin = random_fin(r, Some(255usize.saturating_sub(approx)));
+            (if r.chance(1, 5) { Some(*r.pick(&[254usize, 255, 256])) } else { None }, ops, fin)
+        } else if style < 8 {
+            // free mix, label limits
+            let ops: Vec<Op> = (0..r.range(1, 10)).map(|_| random_op(r, None)).collect();
+            (None, ops, random_fin(r, None))
+        } else {
+            // fixed-capacity builders, steered to the capacity
+            let cap = *r.pick(&CAPS);
+            let mut ops = vec![];
+            if cap >= 64 && r.chance(2, 3) { let t = (cap - r.range(0, 12) as usize).min(250); ops = fill_ops(r, if t == 1 { 2 } else { t }); }
+            for _ in 0..r.range(1, 8) {
+                let near = if r.below(3) == 0 { Some(r.range(0, 6) as usize) } else { None };
+                let o = random_op(r, near);
+                ops.push(o);
+            }
+            let near = Some(r.range(0, 5) as usize);
+            (Some(cap), ops, random_fin(r, near))
+        };
+        if !out.wants(*idx) { continue; }
+        run_case(out, cap, &ops, &fin, true, true, if cap.is_some() { "seq_bounded" } else { "seq" });
+    }
+}
+
+/// Exhaustive enumeration of (current length) x (open label length or none) x
+/// operation x argument length, the states built through the public API.
+/// Every combination is judged by the oracle; every `t2_every`-th also goes to
+/// the model.
+fn enumerate(out: &mut Out, r: &mut Rng, lens: std::ops::RangeInclusive<usize>, t2_every: u64, idx: &mut u64) -> u64 {
+    let mut n = 0u64;
+    for len in lens {
+        for open in 0..=63usize {
+            // open = 0: no label under construction
+            let closed = if open == 0 { len } else { if len < open + 1 || len > 254 { continue; } len - open - 1 };
+            if closed == 1 { continue; }
+            let mut prefix = if closed == 255 {
+                let mut p = fill_ops(r, 250); p.push(Op::Label(b"1234".to_vec())); p
+            } else { fill_ops(r, closed) };
+            if open > 0 { prefix.push(Op::Slice(label_bytes(r, open))); }
+            let mut todo: Vec<(Option<Op>, Fin)> = vec![];
+            todo.push((Some(Op::Push(b'x')), Fin::Finish));
+            todo.push((Some(Op::End), Fin::IntoName));
+            for k in 0..=70usize {
+                todo.push((Some(Op::Slice(vec![b's'; k])), Fin::Finish));
+                todo.push((Some(Op::Label(vec![b'l'; k])), Fin::IntoName));
+                if k != 1 { todo.push((Some(Op::Name(rel_wire(r, k))), Fin::Finish)); }
+                if k >= 1 && k != 2 { let mut w = rel_wire(r, k - 1); w.push(0); todo.push((None, Fin::Origin(w))); }
+            }
+            for v in [5u8, 55, 255] { todo.push((Some(Op::Dec(v)), Fin::Finish)); }
+            todo.push((Some(Op::Hex(11)), Fin::Finish));
+            todo.push((None, Fin::Finish));
+            todo.push((None, Fin::IntoName));
+            for (op, fin) in todo {
+                *idx += 1; n += 1;
+                if !out.wants(*idx) { continue; }
+                let mut ops = prefix.clone();
+                if let Some(o) = op { ops.push(o); ops.push(Op::Push(b'q')); }
+                run_case(out, None, &ops, &fin, true, n % t2_every == 0, "enumerated");
+            }
+        }
+    }
+    n
+}
 
 fn main() {
-    // 1. full label then append_slice
-    let r = catch(|| {
-        let mut b = NameBuilder::new_vec();
-        b.append_slice(&[b'a'; 63]).unwrap();
-        let r = b.append_slice(b"x");
-        format!("{:?} {}", r, hex(b.as_slice()))
-    });
-    println!("full-label append_slice: {:?}", r);
-    let r = catch(|| {
-        let mut b = NameBuilder::new_vec();
-        for _ in 0..63 { b.push(b'a').unwrap(); }
-        let r = b.append_slice(b"x");
-        format!("{:?} {}", r, hex(b.as_slice()))
-    });
-    println!("63 pushes then append_slice: {:?}", r);
-    // 2. ShortBuf paths
-    let r = catch(|| {
-        let mut b = NameBuilder::<Array<5>>::new();
-        b.append_label(b"abc").unwrap();
-        let r1 = b.push(b'x');
-        let r2 = b.push(b'y');
-        let s = hex(b.as_slice());
-        let n = b.finish();
-        format!("{:?} {:?} {} finish={} check={:?}", r1, r2, s, hex(n.as_slice()), RelativeName::from_slice(n.as_slice()).map(|_| ()))
-    });
-    println!("array5 push push: {:?}", r);
-    let r = catch(|| {
-        let mut b = NameBuilder::<Array<5>>::new();
-        b.append_label(b"abc").unwrap();
-        let r1 = b.append_slice(b"xy");
-        let s = hex(b.as_slice());
-        let n = b.finish();
-        format!("{:?} {} finish={} check={:?}", r1, s, hex(n.as_slice()), RelativeName::from_slice(n.as_slice()).map(|_| ()))
-    });
-    println!("array5 append_slice: {:?}", r);
-    let r = catch(|| {
-        let mut b = NameBuilder::<Array<4>>::new();
-        b.append_label(b"abc").unwrap();
-        let r1 = b.push(b'x');
-        let s = hex(b.as_slice());
-        let il = b.in_label();
-        b.end_label();
-        format!("{:?} {} {}", r1, s, il)
-    });
-    println!("array4 push end_label: {:?}", r);
-    let r = catch(|| {
-        let mut b = NameBuilder::<Array<6>>::new();
-        b.append_label(b"abc").unwrap();
-        let rel = RelativeName::from_slice(b"\x03xyz").unwrap();
-        let r1 = b.append_name(&rel);
-        let s = hex(b.as_slice());
-        let n = b.finish();
-        format!("{:?} {} finish={} check={:?}", r1, s, hex(n.as_slice()), RelativeName::from_slice(n.as_slice()).map(|_| ()))
-    });
-    println!("array6 append_name: {:?}", r);
+    let a = args();
+    let mut out = Out::new(&a, "C03", 60);
+    let mut r = Rng::new(a.seed);
+    let mut idx = 0u64;
+
+    // ---- corpus: regression and boundary sequences first
+    let l9 = || Op::Label(b"123456789".to_vec());
+    let base25: Vec<Op> = (0..25).map(|_| l9()).collect();
+    let with = |extra: Vec<Op>| { let mut v = base25.clone(); v.extend(extra); v };
+    let corpus: Vec<(Option<usize>, Vec<Op>, Fin)> = vec![
+        // the known class and what into_name makes of it
+        (None, with(vec![Op::Label(b"1234".to_vec())]), Fin::Finish),
+        (None, with(vec![Op::Label(b"1234".to_vec())]), Fin::IntoName),
+        (None, with(vec![Op::Slice(b"1234".to_vec())]), Fin::IntoName),
+        (None, with(vec![Op::Label(b"12345".to_vec())]), Fin::Finish),
+        (None, with(vec![Op::Label(b"123".to_vec())]), Fin::IntoName),
+        // fixed: push at 253 must not start a label
+        (None, with(vec![Op::Label(b"12".to_vec()), Op::Push(b'x')]), Fin::IntoName),
+        (None, with(vec![Op::Label(b"1".to_vec()), Op::Push(b'x'), Op::Push(b'y')]), Fin::IntoName),
+        // fixed: append_name must close the open label
+        (None, vec![Op::Push(b'x'), Op::Name(b"\x03foo".to_vec())], Fin::Finish),
+        // fixed: in-label append_slice total check
+        (None, with(vec![Op::Push(b'a'), Op::Slice(vec![b'b'; 40])]), Fin::Finish),
+        // fixed: full open label
+        (None, vec![Op::Slice(vec![b'a'; 63]), Op::Slice(b"x".to_vec())], Fin::Finish),
+        (None, vec![Op::Slice(vec![b'a'; 60]), Op::Slice(b"xyz".to_vec()), Op::Push(b'!')], Fin::Finish),
+        // fixed: ShortBuf leaves the builder unchanged
+        (Some(4), vec![Op::Label(b"abc".to_vec()), Op::Push(b'x'), Op::End], Fin::Finish),
+        (Some(7), vec![Op::Label(b"abc".to_vec()), Op::Slice(b"wxyz".to_vec()), Op::Push(b'y')], Fin::Finish),
+        (Some(7), vec![Op::Label(b"abc".to_vec()), Op::Name(b"\x03xyz".to_vec())], Fin::Finish),
+        (Some(4), vec![Op::Label(b"abc".to_vec())], Fin::IntoName),
+        (Some(7), vec![Op::Push(b'a'), Op::Label(b"bcdefg".to_vec()), Op::Push(b'h')], Fin::Finish),
+        // errors that are not atomic (valid, but the label was ended / digits stay)
+        (None, with(vec![Op::Label(b"1".to_vec()), Op::Dec(123)]), Fin::Finish),
+        (None, with(vec![Op::Push(b'a'), Op::Push(b'b'), Op::Hex(5), Op::Push(b'c')]), Fin::Finish),
+        // failed append_label / append_name restore the head: placeholder octet differs
+        (None, with(vec![Op::Push(b'a'), Op::Label(b"12345".to_vec()), Op::Push(b'b')]), Fin::Finish),
+        (None, with(vec![Op::Push(b'a'), Op::Name(b"\x0212\x0212".to_vec()), Op::Push(b'b')]), Fin::Finish),
+        (None, vec![Op::Label(vec![0u8; 63]), Op::Label(vec![0u8; 64]), Op::Slice(vec![0u8; 60])], Fin::Origin(b"\x03com\x00".to_vec())),
+        (None, vec![], Fin::IntoName),
+        (None, vec![], Fin::Finish),
+        (None, with(vec![Op::Label(b"123".to_vec())]), Fin::Origin(vec![0])),
+        (None, with(vec![Op::Label(b"12".to_vec())]), Fin::Origin(b"\x01a\x00".to_vec())),
+        (None, with(vec![Op::Label(b"12".to_vec())]), Fin::Origin(b"\x02ab\x00".to_vec())),
+    ];
+    for (cap, ops, fin) in &corpus {
+        idx += 1;
+        if !out.wants(idx) { continue; }
+        run_case(&mut out, *cap, ops, fin, true, true, "corpus");
+    }
+
+    // ---- generated sequences
+    let n_seq = if a.thorough { 150_000 } else { 20_000 } * a.scale;
+    gen_sequences(&mut out, &mut r, n_seq, &mut idx);
+
+    // ---- enumeration of the limit region
+    let enumerated = if a.thorough {
+        enumerate(&mut out, &mut r, 0..=255, 37, &mut idx)
+    } else {
+        enumerate(&mut out, &mut r, 240..=255, 29, &mut idx)
+    };
+
+    // ---- wire validators, slicing, chain
+    let fixed: Vec<Vec<u8>> = vec![vec![], vec![0], vec![0, 0], vec![1], vec![1, 97], vec![1, 97, 0], vec![64, 1], vec![0xc0, 5], vec![0xc0],
+        vec![0x80, 1, 0], vec![5, 1, 2], { let mut v = rel_wire(&mut r, 254); v.push(0); v }, { let mut v = rel_wire(&mut r, 254); v.push(1); v.push(97); v.push(0); v },
+        rel_wire(&mut r, 254), { let mut v = rel_wire(&mut r, 252); v.extend([1, 97, 1]); v }];
+    for w in &fixed { idx += 1; if out.wants(idx) { wire_case(&mut out, w); } }
+    let n_wire = if a.thorough { 60_000 } else { 6_000 } * a.scale;
+    for _ in 0..n_wire { let w = gen_octets(&mut r); idx += 1; if out.wants(idx) { wire_case(&mut out, &w); } }
+    for _ in 0..n_wire / 2 { idx += 1; if out.wants(idx) { chain_case(&mut out, &mut r); } else { let _ = r.fork(); } }
+    // ---- presentation format
+    let fixed_txt = [".", "", "..", "a", "a.", "a..", ".a", "\\", "\\.", "\\[", "a\\[", "\\[a", "a.\\[b", "\\0", "\\00", "\\000", "\\256", "\\255", "\\25a", "\\2", "a\\", ".\\",
+        "é", "\\é", "a b", "a\\ b", "\\\u{1}", "www.example.com", "www.example.com.", "*", "\\046", "a\\.b.c", "\\\\", "\"", ";(x)"];
+    for t in fixed_txt { idx += 1; if out.wants(idx) { text_case(&mut out, t); } }
+    // the strings that gave 256-octet names before the push fix
+    let long1 = format!("{}ab.x", "123456789.".repeat(25));
+    let long2 = format!("{}abc", "123456789.".repeat(25));
+    let long3 = format!("{}abcd", "123456789.".repeat(25));
+    let long4 = format!("{}a.b", "123456789.".repeat(25));
+    let l63 = format!("{}.{}", "a".repeat(63), "b".repeat(64));
+    for t in [&long1, &long2, &long3, &long4, &l63] { idx += 1; if out.wants(idx) { text_case(&mut out, t); } }
+    let n_txt = if a.thorough { 80_000 } else { 8_000 } * a.scale;
+    for _ in 0..n_txt { let t = gen_text(&mut r); idx += 1; if out.wants(idx) { text_case(&mut out, &t); } }
+    for _ in 0..n_txt / 4 {
+        let total = match r.below(3) { 0 => r.range(0, 10) as usize, 1 => r.range(245, 254) as usize, _ => r.range(2, 100) as usize };
+        let mut w = rel_wire(&mut r, if total == 1 { 2 } else { total }); w.push(0);
+        idx += 1; if out.wants(idx) { display_case(&mut out, &w); }
+    }
+
+    for k in 60..=66usize {
+        let c = format!("label {}", hex(&vec![7u8; k]));
+        let ok = domain::base::name::Label::from_slice(&vec![7u8; k]).is_ok();
+        out.case(&c, if ok { "Ok" } else { "LongLabel" }, true, "label_from_slice");
+        out.check(ok == (k <= 63), "label_from_slice_limit", &c, "");
+    }
+
+    out.finish(&[("enumerated_state_op_pairs", format!("{}", enumerated))]);
 }
